@@ -40,19 +40,30 @@ class DistinguisherMixin(abc.ABC):
         data = data.reshape((o_shape[0], -1))
         try:
             self._origin_shape
+            previous_state = None
         except AttributeError:
-            logger.debug('Initialize distinguisher state.')
-            self._origin_shape = o_shape
-            logger.debug(f'Origin shape {self._origin_shape}')
-            mem = psutil.virtual_memory().available / 2 ** 30
-            logger.debug(f'Memory usage before compute {mem} GB.')
-            self._initialize(traces=traces, data=data)
+            previous_state = dict(self.__dict__)
 
-        self._check(traces=traces, data=data)
+        try:
+            if previous_state is not None:
+                logger.debug('Initialize distinguisher state.')
+                self._origin_shape = o_shape
+                logger.debug(f'Origin shape {self._origin_shape}')
+                mem = psutil.virtual_memory().available / 2 ** 30
+                logger.debug(f'Memory usage before compute {mem} GB.')
+                self._initialize(traces=traces, data=data)
 
+            self._check(traces=traces, data=data)
+
+            logger.info('Will call _update traces.')
+            self._update(traces=traces, data=data)
+        except Exception:
+            if previous_state is not None:
+                # A refused first call must leave the distinguisher as it was.
+                self.__dict__.clear()
+                self.__dict__.update(previous_state)
+            raise
         self.processed_traces += traces.shape[0]
-        logger.info('Will call _update traces.')
-        self._update(traces=traces, data=data)
 
     @abc.abstractmethod
     def _initialize(self, traces, data):
